@@ -11,6 +11,7 @@
    former premise stableb, now a theorem: ReachSpec.find_all_fs_stable), doc_ok_json (the written document is
    well-formed: a boolean on the document alone). *)
 From Cassis Require Import Base Heap Schema Canon Reach JsonDoc Json JsonProofs JsonProofs2 JsonLoadProofs JsonLex CorrC02.
+From Cassis Require Import JsonWf JsonDocOk JsonRoundtrip.
 Open Scope Z_scope.
 
 (* ---- per-kind: decoding what the writer encodes gives the canonical value ---- *)
@@ -130,6 +131,37 @@ Theorem C02_json_roundtrip_partial : forall L s mode c d c' cc,
 Proof. exact json_roundtrip. Qed.
 Print Assumptions C02_json_roundtrip_partial.
 
+(* Round 3: json_doc_ok and json_roundtrip at full strength.  The written document is well-formed for every CAS whose state
+   after the save satisfies the boolean premises wf_jsonb, ids_distinctb, refs_wfb (no id 0, arrays = ArrayBase subtypes, `sofa`
+   slots hold sofas) and typed_jsonb (JsonWf.v: ids positive, sofaNums distinct, a view indexes a structure once and a member's
+   `sofa` is that view's sofa, slots hold values of the kind of their range / live references / sofas of this CAS). *)
+Theorem C02_json_doc_ok : forall L s mode c d c',
+  lex_ok L -> save_json L s mode c = Ok (d, c') -> wf_jsonb s c' = true -> 0 < c_next_id c ->
+  ids_distinctb s c' = true -> refs_wfb s c' = true -> typed_jsonb s c' = true -> doc_ok_json L s d = true.
+Proof. exact doc_ok_save_json. Qed.
+Print Assumptions C02_json_doc_ok.
+
+(* the canonical content is defined: for every well-formed typed CAS, and (without typed_jsonb) for the CAS a successful
+   save leaves behind, where it is what the document denotes *)
+Theorem C02_canon_json_total : forall s c, wf_jsonb s c = true -> typed_jsonb s c = true -> exists cc, canon_json s c = Ok cc.
+Proof. exact canon_json_total. Qed.
+Print Assumptions C02_canon_json_total.
+Theorem C02_canon_json_after_save : forall L s mode c d c',
+  lex_ok L -> save_json L s mode c = Ok (d, c') -> wf_jsonb s c' = true -> 0 < c_next_id c ->
+  exists cc, canon_json s c' = Ok cc /\ denote_json L s d = Ok cc.
+Proof. exact canon_json_after_save. Qed.
+Print Assumptions C02_canon_json_after_save.
+
+(* json_roundtrip, full statement: no premise about the document, about the reader, or about the definedness of the
+   canonical content is left; initial_view_in: the CAS has the view _InitialView (every cassis CAS has) *)
+Theorem C02_json_roundtrip : forall L s mode c d c',
+  lex_ok L -> save_json L s mode c = Ok (d, c') ->
+  wf_jsonb s c' = true -> ids_distinctb s c' = true -> refs_wfb s c' = true -> typed_jsonb s c' = true -> 0 < c_next_id c ->
+  initial_view_in c' = true ->
+  exists cc, canon_json s c' = Ok cc /\ load_json L s d = Ok cc.
+Proof. exact json_roundtrip_wf. Qed.
+Print Assumptions C02_json_roundtrip.
+
 Theorem C02_std_lex_ok : lex_ok std_lex.
 Proof. exact std_lex_ok. Qed.
 Print Assumptions C02_std_lex_ok.
@@ -174,6 +206,7 @@ Example C02_premises_hold :
   match save_json std_lex s MMinimal (c_cas ex_case) with
   | Ok (d, c') =>
       wf_jsonb s c' = true /\ 0 < c_next_id (c_cas ex_case) /\ ids_distinctb s c' = true /\ initial_view_in c' = true /\
+      refs_wfb s c' = true /\ typed_jsonb s c' = true /\
       schema_okb s = true /\ doc_ok_json std_lex s d = true /\
       denote_json std_lex s d = canon_json s c' /\ load_json std_lex s d = canon_json s c' /\
       (3 <= List.length (c_views c'))%nat /\ (5 <= List.length (c_heap c'))%nat
